@@ -2,7 +2,7 @@
    harness observes of the Go run. *)
 From Coq Require Import List ZArith Bool.
 From Verif Require Spec.Visited Spec.Rules Spec.Walk.
-From Verif Require Import Base.Sx Base.GoVal Base.F64 Schema.Ast Schema.Pipeline Schema.Simple Schema.Draft4 Schema.Classes Schema.Helpers Schema.Post Schema.AgreementDec Schema.AgreementRec Schema.PipelineTermDec Schema.SimpleAgree Schema.SimpleAgreeDec.
+From Verif Require Import Base.Sx Base.GoVal Base.F64 Schema.Ast Schema.Pipeline Schema.Simple Schema.Draft4 Schema.Classes Schema.Helpers Schema.Post Schema.AgreementDec Schema.AgreementRec Schema.PipelineLocateDec Schema.PipelineTermDec Schema.SimpleAgree Schema.SimpleAgreeDec.
 Import ListNotations.
 Open Scope Z_scope.
 
@@ -92,7 +92,9 @@ Definition run_schema (s : sx) : sx :=
                  (Schema/PipelineTermRec.v, decided by PipelineTermDec.v)? *)
               (let K := Nat.min fuel 48 in
                let R := fold_right Nat.max O (map (max_rank dfs K fuel) (roots dfs sch)) in
-               ofBool (guarded_b dfs K R fuel sch && (goval_depth data * S R + urank dfs K sch <? fuel)%nat)) ]
+               ofBool (guarded_b dfs K R fuel sch && (goval_depth data * S R + urank dfs K sch <? fuel)%nat));
+              (* is the schema inside the class on which every error is proved to designate its place (Schema/PipelineLocate.v)? *)
+              ofBool (located_class_b dfs fuel sch) ]
       | _, _, _, _, _, _ => sx_err
       end
   | _ => sx_err
